@@ -209,3 +209,39 @@ func GenParseString(r *plan.Rng) string {
 	}
 	return s
 }
+
+// Sibling derives an operand related to d: same number of digits (fresh random
+// digits), same or neighbouring exponent. Pairs of this kind reach paths that
+// independent operands almost never do (equal digit counts in Quo, equal
+// adjusted exponents in Cmp, cancellation in Sub).
+func Sibling(r *plan.Rng, d plan.Dec) plan.Dec {
+	s := d
+	if d.Form != 0 {
+		return s
+	}
+	n := len(d.Coeff)
+	switch r.Intn(4) {
+	case 0:
+		s.Coeff = randDigits(r, n)
+	case 1:
+		// same leading digits, different tail
+		k := n / 2
+		s.Coeff = d.Coeff[:k] + randDigits(r, n-k)
+		if len(s.Coeff) > 1 && s.Coeff[0] == '0' {
+			s.Coeff = "1" + s.Coeff[1:]
+		}
+	case 2:
+		// same value, different representation (trailing zeros moved into the exponent)
+		z := r.Intn(4)
+		s.Coeff = d.Coeff + strings.Repeat("0", z)
+		s.Exp = d.Exp - int32(z)
+	default:
+		s.Coeff = randDigits(r, n)
+		s.Exp = d.Exp + int32(r.Range(-2, 2))
+	}
+	if r.Chance(1, 4) {
+		s.Neg = !d.Neg
+	}
+	s.Heap = d.Heap || r.Chance(1, 6)
+	return s
+}
